@@ -114,6 +114,20 @@ def p_sign(d, m, a):
         return "signature does not verify under the x-only key"
     if key.point.verify_schnorr(m, SchnorrSignature.parse(sig)) is not True:
         return "signature does not verify under the full point"
+    if a == bytes(32) and key.sign_schnorr(m).serialize() != want:
+        return "sign_schnorr without aux differs from BIP340 with 32 zero bytes of auxiliary randomness"
+    return None
+
+
+def p_nonce(d, m, a):
+    """bip340_k == the BIP340 nonce int(hash_nonce(bytes(d_even) xor hash_aux(a) || bytes(P) || m)) mod n, where
+    the xor operand t is always 32 bytes (leading zero bytes kept)"""
+    key = PrivateKey(d)
+    got, want = key.bip340_k(m, a), _ref_k0(d, m, a)
+    if got != want:
+        return f"bip340_k is {got}, BIP340 nonce is {want}"
+    if a == bytes(32) and key.bip340_k(m) != want:
+        return "bip340_k without aux differs from the nonce for 32 zero bytes of auxiliary randomness"
     return None
 
 
@@ -239,8 +253,8 @@ def p_key_reuse(d, msgs, auxs, order):
     return None
 
 
-PROPS = {"sign": p_sign, "verify_ref": p_verify_ref, "tagged": p_tagged, "tagged_wrappers": p_tagged_wrappers,
-         "key_reuse": p_key_reuse}
+PROPS = {"sign": p_sign, "nonce": p_nonce, "verify_ref": p_verify_ref, "tagged": p_tagged,
+         "tagged_wrappers": p_tagged_wrappers, "key_reuse": p_key_reuse}
 
 # ---------------------------------------------------------------- official BIP340 test vectors
 # (index, secret, pubkey, aux, msg, sig, result) — from bip-0340/test-vectors.csv, 32-byte messages only
@@ -369,7 +383,56 @@ def sig_mutations(r, d, pk, m, sig, nflips):
         yield "bitflip", (pk, m, bytes(bad))
 
 
+def leading_zero_t(r, ctx, nz, aux):
+    """secrets d (both public-key parities) for which t = bytes(d_even) xor hash_aux(aux) starts with nz zero
+    bytes (nz = 32: t is all zero): the even secret e copies the first nz bytes of the mask; e*G must have
+    even y (then even_secret(e) = even_secret(n - e) = e)"""
+    mask = ecref.tagged(b"BIP0340/aux", aux)
+    for _ in range(400):
+        rest = ctx.rbytes(32 - nz)
+        if rest and rest[0] == mask[nz]:
+            continue                      # exactly nz leading zero bytes
+        e = int.from_bytes(mask[:nz] + rest, "big")
+        if 1 <= e < N and ecref.mul(e, ecref.G)[1] % 2 == 0:
+            return [e, N - e]
+    return []
+
+
 def generate(ctx):
+    yield from _generate(ctx)
+    r = ctx.rng
+    # ---- boundary class: the xor operand t of the nonce derivation has leading zero bytes (a t serialised without
+    # them changes the nonce hash input from 96 to fewer bytes; the signature stays valid but is not BIP340's)
+    full = 0
+    for nz in (1, 2, 3, 1, 2, 4, 32):
+        for default_aux in (False, True):
+            if nz == 32:
+                if default_aux:
+                    continue
+                ds, aux = [], None
+                for _ in range(60):
+                    aux = ctx.rbytes(32)
+                    ds = leading_zero_t(r, ctx, 32, aux)
+                    if ds:
+                        break
+            else:
+                aux = bytes(32) if default_aux else ctx.rbytes(32)
+                ds = leading_zero_t(r, ctx, nz, aux)
+            for which, d in enumerate(ds):
+                m = ctx.rbytes(32)
+                lab = "nonce/t-leading-zero-bytes=%d%s/%s" % (nz, "/default-aux" if default_aux else "", "P-odd" if which else "P-even")
+                ctx.label(lab)
+                yield ("corr", "bip340_k", [d, m, aux])
+                yield ("prop", "nonce", [d, m, aux])
+                if (full + which) % 2 == 0 and (full < 5 or ctx.tier != "quick"):
+                    ctx.label("sign/t-leading-zero-bytes")
+                    yield ("corr", "sign_schnorr", [d, m, aux])
+                    yield ("corr", "bip340_sign", [d, m, aux])
+                    yield ("prop", "sign", [d, m, aux])
+            full += 1
+
+
+def _generate(ctx):
     r = ctx.rng
     # ---- tagged hash and its cache
     tags = [b"BIP0340/aux", b"BIP0340/nonce", b"BIP0340/challenge", b"TapTweak", b"TapLeaf", b"", b"\x00", b"x" * 100]
